@@ -28,7 +28,7 @@ EXTRA_IMPORTS = 'From PJ Require Import Model.Spec.\n'
 RULE = ('method sets of 1..3 (quick) / 1..4 (thorough) methods drawn from a pool of functions with annotated scalar / container / model / '
         'optional parameter and return types (incl. None and missing) and docstrings with and without params / raises sections (reST, and numpy style with description-less entries); the same method name may be exposed by different functions at different endpoints; names that differ only by separator or casing (user_get / user.get, getUsers / get_users); '
         'annotation combinations: errors (own list, ONE list object shared between methods, none), tags, summary, '
-        'description, deprecated, component_name_prefix; extractor stacks {pydantic, pydantic+docstring, docstring+pydantic}; endpoint '
+        'description, deprecated, component_name_prefix - every docstring, tag, summary and description carries a marker token unique to its method, and the tokens found in an entry (with the components it reaches) must be the method\'s own; functions at module level or (20%) overrides in a view class of a documented base-class method; extractor stacks {pydantic, pydantic+docstring, docstring+pydantic, pydantic given model configuration arguments (alone, +docstring)}; endpoint '
         'prefixes (OpenAPI); 1..3 repeated generations on the same specification object; OpenAPI 3.0.3, 3.1.0 and OpenRPC. Each document '
         'is JSON-encoded and validated against the official meta-schema (tests). distinct = distinct case; non-trivial = at least two methods')
 EXHAUSTIVE = {'quick': False, 'thorough': False}
@@ -89,21 +89,54 @@ DOCS = [None, 'Plain summary.', 'Summary line.\n\n    Long description.\n\n    :
 NUMPY_DOC = 5
 
 
-def make_fn(name, sig_i, doc_i):
+TOKEN_RE = re.compile(r'Tk[A-Z]?\d+q')
+_view_modules = []
+
+
+def make_fn(name, sig_i, doc_i, idx=0, view=False):
+    """The function exposed as [name]: a module-level function, or (view) the undocumented-or-documented override V.<fname> of a
+    documented base-class method B.<fname> whose docstring (token TkB<idx>q, an error, a parameter) belongs to no registered method.
+    A docstring carries the token Tk<idx>q in its first sentence."""
     params, ret = SIGS[sig_i]
-    ns = {'List': List, 'Optional': Optional, 'Dict': Dict, 'Any': Any, 'Item': Item, 'E2': E2, 'E3': E3, 'E4': E4}
+    ns = {'List': List, 'Optional': Optional, 'Dict': Dict, 'Any': Any, 'Item': Item, 'E1': E1, 'E2': E2, 'E3': E3, 'E4': E4,
+          'ViewMixin': ViewMixin}
     doc = DOCS[doc_i]
     if doc is not None and ':param a:' in doc and 'a:' not in params:
         doc = doc.replace(':param a: the a\n    ', '')
-    pyname = name.replace('.', '_dot_')          # the exposed name need not be an identifier; the function's own name is
-    src = 'def %s(%s)%s:\n' % (pyname, params, (' -> %s' % ret) if ret else '')
     if doc is not None:
-        src += '    """%s\n    """\n' % doc
-    src += '    return None\n'
-    exec(src, ns)
-    f = ns[pyname]
-    f.__module__ = __name__
-    return f
+        doc = 'Tk%dq %s' % (idx, doc)
+    pyname = name.replace('.', '_dot_')          # the exposed name need not be an identifier; the function's own name is
+    if not view:
+        src = 'def %s(%s)%s:\n' % (pyname, params, (' -> %s' % ret) if ret else '')
+        if doc is not None:
+            src += '    """%s\n    """\n' % doc
+        src += '    return None\n'
+        exec(src, ns)
+        f = ns[pyname]
+        f.__module__ = __name__
+        return f, None
+    import sys
+    import types
+    fname = name.rsplit('.', 1)[-1]
+    mod = types.ModuleType('harness_c16_view_%d_%d' % (len(_view_modules), idx))
+    mod.__dict__.update(ns)
+    sys.modules[mod.__name__] = mod
+    _view_modules.append(mod.__name__)
+    src = ('class B(ViewMixin):\n    def %s(self, zz: int = 0) -> int:\n        """TkB%dq Foreign summary. Foreign long text.\n\n'
+           '        :param zz: foreign parameter\n        :raises E1: foreign error\n        """\n        return 0\n\n\n'
+           % (fname, idx))
+    src += 'class V(B):\n    def %s(%s)%s:\n' % (fname, ', '.join(x for x in ('self', params) if x), (' -> %s' % ret) if ret else '')
+    if doc is not None:
+        src += '        """%s\n        """\n' % doc.replace('\n    ', '\n        ')
+    src += '        return None\n'
+    exec(compile(src, mod.__name__, 'exec'), mod.__dict__)
+    return mod.V.__dict__[fname], mod.V
+
+
+def drop_view_modules():
+    import sys
+    while _view_modules:
+        sys.modules.pop(_view_modules.pop(), None)
 
 
 def generate(seed, tier):
@@ -127,21 +160,24 @@ def generate(seed, tier):
                  'errors': rnd.choice(['shared', 'shared', 'own', None] if shared_used else ['own', None]),
                  'own': rnd.sample(['E1', 'E2', 'E3', 'E4'], rnd.randint(0, 2)),
                  # prefixes incl. ones that coincide with the beginning of generated component names (MethodNameParameters, Item, ...)
-                 'prefix': rnd.choice([None, None, 'P%d_' % i, '', 'M', 'Get', 'Item', 'M%d' % i]), 'tags': rnd.choice([None, ['t1'], ['t1', 't2']]),
-                 'summary': rnd.choice([None, 'S']), 'description': rnd.choice([None, 'D']), 'deprecated': rnd.choice([None, True]),
+                 'prefix': rnd.choice([None, None, 'P%d_' % i, '', 'M', 'Get', 'Item', 'M%d' % i]), 'tags': rnd.choice([None, ['TkT%dq' % i], ['TkT%dq' % i, 'TkU%dq' % i]]),
+                 'summary': rnd.choice([None, 'TkS%dq S' % i]), 'description': rnd.choice([None, 'TkD%dq D' % i]), 'deprecated': rnd.choice([None, True]),
                  'endpoint': endpoint}
             if kind != 'rpc' and rnd.random() < 0.15:
                 m['sig'], m['doc'] = NUMPY_SIG, NUMPY_DOC
             ms.append(m)
         cases.append({'kind': kind, 'methods': ms, 'shared': rnd.sample(['E1', 'E2', 'E3'], rnd.randint(1, 2)),
-                      'stack': rnd.choice(['pyd', 'pyd+doc', 'doc+pyd']), 'global_prefix': rnd.choice(['', '', 'G_', 'M', 'Get']),
+                      'stack': rnd.choice(['pyd', 'pyd+doc', 'doc+pyd', 'pydcfg', 'pydcfg+doc']), 'global_prefix': rnd.choice(['', '', 'G_', 'M', 'Get']),
                       'gens': rnd.choice([1, 2, 3]), 'view': rnd.random() < 0.2})
     return cases
 
 
 def stack_of(name):
+    # pydcfg: an extractor given model configuration arguments (they are applied to every model it builds)
     return {'pyd': [PydanticSchemaExtractor()], 'pyd+doc': [PydanticSchemaExtractor(), DocstringSchemaExtractor()],
-            'doc+pyd': [DocstringSchemaExtractor(), PydanticSchemaExtractor()]}[name]
+            'doc+pyd': [DocstringSchemaExtractor(), PydanticSchemaExtractor()],
+            'pydcfg': [PydanticSchemaExtractor(str_strip_whitespace=True)],
+            'pydcfg+doc': [PydanticSchemaExtractor(str_strip_whitespace=True), DocstringSchemaExtractor()]}[name]
 
 
 def all_refs(x, acc):
@@ -192,6 +228,25 @@ def documented_codes(entry, components):
     return sorted(c for c in codes if 2000 <= c <= 2010)
 
 
+def closure(entry, comps):
+    """An entry together with every component reachable from it."""
+    seen, out, todo = set(), [entry], [entry]
+    while todo:
+        for r in all_refs(todo.pop(), []):
+            name = r.rsplit('/', 1)[-1]
+            if name not in seen and name in comps:
+                seen.add(name)
+                out.append(comps[name])
+                todo.append(comps[name])
+    return out
+
+
+def own_tokens(m, i):
+    """(tokens that may occur in the method's entry, tokens that must): its own docstring's; its own annotations'."""
+    must = list(m['tags'] or []) + [x.split()[0] for x in (m['summary'], m['description']) if x]
+    return (['Tk%dq' % i] if DOCS[m['doc']] is not None else []) + must, must
+
+
 def request_method_name(entry, comps, rpc):
     if rpc:
         return entry.get('name', '')
@@ -226,9 +281,10 @@ def observe(case):
     mod = orpc if rpc else oa
     shared = [ERR[e] for e in case['shared']]
     user_lists = [shared]
-    fns, heap_idx = [], []
-    for m in case['methods']:
-        f = make_fn(m['name'], m['sig'], m['doc'])
+    fns, heap_idx, views = [], [], []
+    for i, m in enumerate(case['methods']):
+        f, view = make_fn(m['name'], m['sig'], m['doc'], i, bool(case.get('view')))
+        views.append(view)
         kw = {}
         idx = None
         if m['errors'] == 'shared':
@@ -258,9 +314,13 @@ def observe(case):
         fns.append(f)
         heap_idx.append(idx)
     regs = {}
-    for m, f in zip(case['methods'], fns):
+    for m, f, view in zip(case['methods'], fns, views):
         ep = '' if rpc else m['endpoint']
-        regs.setdefault(ep, Dispatcher()).add(f, name=m['name'])
+        d = regs.setdefault(ep, Dispatcher())
+        if view is None:
+            d.add(f, name=m['name'])
+        else:
+            d.registry.view(view, prefix=m['name'].rsplit('.', 1)[0] if '.' in m['name'] else None)
     methods_map = {ep: list(d.registry.values()) for ep, d in regs.items()}
     if rpc:
         spec = orpc.OpenRPC(info=orpc.Info(version='1', title='t'), schema_extractor=stack_of(case['stack'])[0])
@@ -276,7 +336,7 @@ def observe(case):
         try:
             doc = spec.schema(path='/api', methods_map=methods_map, **({} if rpc else {'component_name_prefix': case['global_prefix']}))
         except Exception as e:
-            gens.append({'keys': [], 'entries': [], 'names': [], 'params': [], 'components': [], 'refs': ['<generation raised %s>' % type(e).__name__], 'digest': 'x',
+            gens.append({'keys': [], 'entries': [], 'names': [], 'params': [], 'tokens': [], 'components': [], 'refs': ['<generation raised %s>' % type(e).__name__], 'digest': 'x',
                          'json_ok': False, 'meta_ok': False})
             heaps.append(snapshot())
             continue
@@ -300,8 +360,9 @@ def observe(case):
         else:
             keys = list(doc['paths'])
             entries = list(doc['paths'].items())
-        ent, names, dparams = [], [], []
+        ent, names, dparams, toks = [], [], [], []
         for k, e in entries:
+            toks.append((k, sorted(set(TOKEN_RE.findall(json.dumps(closure(e, comps), cls=SpecEncoder, default=repr))))))
             names.append((k, request_method_name(e, comps, rpc)))
             dp = documented_params(e, comps, rpc)
             if dp is not None:
@@ -316,7 +377,7 @@ def observe(case):
                         codes.add(code)
             ent.append((k, sorted(codes), direct))
         refs = sorted({r.rsplit('/', 1)[-1] if r.startswith('#/components/schemas/') else r for r in all_refs(doc, [])})
-        gens.append({'keys': keys, 'entries': ent, 'names': names, 'params': dparams, 'components': sorted(comps), 'refs': refs,
+        gens.append({'keys': keys, 'entries': ent, 'names': names, 'params': dparams, 'tokens': toks, 'components': sorted(comps), 'refs': refs,
                      'digest': hashlib.md5(text.encode()).hexdigest(), 'json_ok': json_ok, 'meta_ok': meta_ok})
         heaps.append(snapshot())
     # oracle: which errors the extractors report for each function
@@ -331,7 +392,9 @@ def observe(case):
     # oracle: the functions' own parameter names (the pydantic extractor documents the signature; a docstring-first stack
     # documents what the docstring says, which is the user's text and not judged)
     import inspect
-    own = [sorted(inspect.signature(f).parameters) if case['stack'].startswith('pyd') else None for f in fns]
+    own = [sorted(p for p in inspect.signature(f).parameters if not (v is not None and p == 'self')) if case['stack'].startswith('pyd') else None
+           for f, v in zip(fns, views)]
+    drop_view_modules()
     return {'before': before, 'gens': gens, 'heaps': heaps, 'heap_idx': heap_idx, 'ext': ext, 'own_params': own}
 
 
@@ -347,6 +410,11 @@ def encode(case, obs):
     for m, ps in zip(case['methods'], obs['own_params']):
         if ps is not None:
             own_params.append('(%s, %s)' % (cstr(m['name'] if rpc else '/api%s#%s' % (m['endpoint'], m['name'])), clist(cstr(x) for x in ps)))
+    tokens = []
+    for i, m in enumerate(case['methods']):
+        may, must = own_tokens(m, i)
+        tokens.append('(%s, (%s, %s))' % (cstr(m['name'] if rpc else '/api%s#%s' % (m['endpoint'], m['name'])),
+                                          clist(cstr(x) for x in may), clist(cstr(x) for x in must)))
     if not rpc:
         # the methods map groups the methods by endpoint (endpoints in order of first use), as an application does
         order = []
@@ -362,13 +430,14 @@ def encode(case, obs):
     gens = []
     for g in obs['gens']:
         ents = clist('(%s, (%s, %s))' % (cstr(k), clist(cZ(c) for c in codes), clist(cstr(r) for r in refs)) for k, codes, refs in g['entries'])
-        gens.append('{| g_keys := %s; g_entries := %s; g_names := %s; g_params := %s; g_components := %s; g_all_refs := %s; g_digest := %s; g_json_ok := %s; g_meta_ok := %s |}'
+        gens.append('{| g_keys := %s; g_entries := %s; g_names := %s; g_params := %s; g_tokens := %s; g_components := %s; g_all_refs := %s; g_digest := %s; g_json_ok := %s; g_meta_ok := %s |}'
                     % (clist(cstr(k) for k in g['keys']), ents, clist('(%s, %s)' % (cstr(k), cstr(n)) for k, n in g['names']),
                        clist('(%s, %s)' % (cstr(k), clist(cstr(x) for x in ps)) for k, ps in g['params']),
+                       clist('(%s, %s)' % (cstr(k), clist(cstr(x) for x in ts)) for k, ts in g['tokens']),
                        clist(cstr(c) for c in g['components']), clist(cstr(r) for r in g['refs']),
                        cstr(g['digest']), cbool(g['json_ok']), cbool(g['meta_ok'])))
-    return ('{| is_rpc := %s; oas30 := %s; global_prefix := %s; heap_before := %s; methods := %s; own_params := %s; gens := %s; heaps_after := %s |}'
-            % (cbool(rpc), cbool(case['kind'].startswith('3.0')), cstr('' if rpc else case['global_prefix']), cheap(obs['before']), clist(ms), clist(own_params), clist(gens),
+    return ('{| is_rpc := %s; oas30 := %s; global_prefix := %s; heap_before := %s; methods := %s; own_params := %s; tokens := %s; gens := %s; heaps_after := %s |}'
+            % (cbool(rpc), cbool(case['kind'].startswith('3.0')), cstr('' if rpc else case['global_prefix']), cheap(obs['before']), clist(ms), clist(own_params), clist(tokens), clist(gens),
                clist(cheap(h) for h in obs['heaps'])))
 
 
